@@ -18,6 +18,8 @@ loop and `GeckoHelloProtocolHandler.handle`), waits taken from `Generated/Config
   identifiers satisfy; `id_hypothesis_needed` shows it cannot be dropped.
 -/
 import GeckoModel.Proofs.DiscoveryLemmas
+import GeckoModel.Model.Coop
+import GeckoModel.Generated.Skeletons
 
 namespace GeckoModel.C15
 open GeckoModel.Discovery
@@ -277,5 +279,18 @@ example : (discoverRun ⟨40, 100⟩ ⟨none, false⟩ (lockstep (⟨[spaA], fal
 /-- the hypotheses of the timing theorems are satisfiable -/
 example : (discoverRun ⟨40, 100⟩ ⟨none, true⟩ (lockstep [⟨[spaA], false⟩])).spas ≠ [] := by decide +kernel
 example : (⟨none, true⟩ : Filter).restricting = true := by decide
+
+/-- what a synchronous method / coroutine writes into its own object and which of its own methods or attributes it calls -/
+private def stateOf (sk : GeckoModel.Coop.Sk) : List String × List String :=
+  (GeckoModel.Coop.selfStateWritten sk, (GeckoModel.Coop.actions .call sk).filter GeckoModel.Coop.isSelfState)
+
+/-- **what discovery remembers** (state inventory over the regenerated skeletons): listing a spa appends to the two lists and may
+SET the found flag; nothing else is written -/
+theorem discovery_state_inventory :
+    stateOf GeckoModel.Generated.Skeletons.sk_async_locator__GeckoAsyncLocator__async_on_discovered =
+      (["self._has_found_spa"], ["self._on_change", "self._spa_identifiers.append", "self._spas.append"]) ∧
+    stateOf GeckoModel.Generated.Skeletons.sk_locator__GeckoLocator__on_discovered =
+      (["self._has_found_spa", "self._has_found_spa", "self._has_found_spa"], ["self.spa_identifiers.append", "self.spas.append", "self._on_found"]) := by
+  decide +kernel
 
 end GeckoModel.C15
